@@ -327,6 +327,22 @@ def check_case(ctx, case, rng):
                 if d != dm:
                     ctx.violation("write-inverse", "constructed-dump-differs-from-model-dump",
                                   case_detail(case, cfg=cfgd, value=model.clean(v), got=d, want=dm))
+        # values that do not fit -- 2^bits, and negative ones whatever the storage type (a signed type changes nothing:
+        # a bit-field value lies in [0, 2^bits)) -- are refused when written, never wrapped or masked
+        if not gen.has_union(top):
+            bitf = [(i, f) for i, f in enumerate(top["fields"]) if f.get("bits") and f["name"] not in (None, "_")]
+            for i, f in rng.sample(bitf, min(len(bitf), 2)):
+                for bad in (1 << f["bits"], -1, -(1 << (f["bits"] - 1)) if f["bits"] > 1 else -2):
+                    ctx.evaluation((case["text"], tuple(sorted(cfgd.items())), "refusal", f["name"], bad))
+                    try:
+                        obj = T()
+                        setattr(obj, T.__fields__[i]._name, bad)
+                        d = obj.dumps()
+                    except Exception:  # noqa: BLE001
+                        ctx.event("out_of_range_bit_field_values_refused")
+                        continue
+                    ctx.violation("write-inverse", "bit-field-value-outside-its-range-written-instead-of-refused",
+                                  case_detail(case, cfg=cfgd, field=f["name"], bits=f["bits"], value=bad, got=d))
         # the byte order is looked up when a value is read or written: switched after the definitions were loaded
         # (and a reader was generated), the units and the side their fields are taken from follow the new one
         other = ">" if cfgd["endian"] == "<" else "<"
